@@ -60,6 +60,9 @@ def _leaf_boundary_points(a, theta, m=48):
             V = G.prim_vertices(leaf, row, 1)[0]
             ext = [V[i] + t * (V[(i + 1) % len(V)] - V[i]) for i in range(len(V)) for t in (-0.35, -0.12, 1.12, 1.35)]
             p = np.concatenate([p, np.array(ext)])
+        if leaf["k"] == "mesh":
+            from ..ref import poly3d
+            p = np.concatenate([p, poly3d.special_points(*poly3d.SHAPES[leaf["shape"]])])
         for mp in reversed(maps):
             p = G.pushforward(mp, p, {k: np.broadcast_to(v, (len(p), 1)) for k, v in row.items()})
         out.append(p)
